@@ -17,8 +17,9 @@
     [short_channel_id] and by its [outbound_scid_alias] (a route names it by the alias when there is
     one), and an invoice hint may name the payer's own channel by either.  [e_id] is the identifier a
     route uses, [e_alt] the other identifiers of the SAME channel: a hop naming any of them is a hop
-    over this edge (so its limits apply and its capacity is counted once), and excluding any of them
-    excludes the channel.
+    over this edge (so its limits apply and its capacity is counted once).  Exclusion
+    ([previously_failed_channels]) is by the identifiers AS ROUTES NAME THEM: a hop must not name a
+    listed scid, nor go over a channel whose route identifier [e_id] is listed.
     Node ids, short channel ids and blinded hint indices are integers.  Style: stdlib + lia. *)
 Require Import LdkV.Prim.U64 LdkV.Prim.Rs2vLib LdkV.Gen.RouterFees.
 Open Scope Z_scope.
@@ -102,6 +103,7 @@ Fixpoint walk (g : graph) (tail : bool) (src : Z) (pos : nat) (ls : list hop)
     next leg; [r_next] = (amount, fee policy) of the next leg, [None] for the last one *)
 Record rleg := mkRleg {
   r_pos : nat;
+  r_id : Z;          (* the identifier by which the route names the channel *)
   r_e : edge;
   r_fee : Z;
   r_amt : Z;
@@ -114,7 +116,7 @@ Fixpoint mk_legs (w : list (nat * edge * hop)) : list rleg :=
   | (pos, e, h) :: rest =>
       let tl := mk_legs rest in
       let amt_next := match tl with l :: _ => r_amt l | nil => 0 end in
-      mkRleg pos e (h_fee h) (h_fee h + amt_next)
+      mkRleg pos (h_id h) e (h_fee h) (h_fee h + amt_next)
              (match tl, rest with
               | l :: _, (_, e', _) :: _ => Some (r_amt l, e_fees e')
               | _, _ => None
@@ -150,10 +152,14 @@ Definition kind_ok (q : params) (pos : nat) (k : kind) : Prop :=
   | KBlinded => True
   end.
 
-(** a channel is excluded when ANY of its identifiers is on the list *)
-Definition not_excluded (q : params) (e : edge) : Prop :=
+(** [previously_failed_channels] lists scids as routes name them: the hop must not NAME a listed
+    scid ([named]), and the channel it goes over must not be listed under its route identifier
+    [e_id] (for a first hop: the alias when it has one, else the real scid) — which matters when
+    the hop reaches the payer's own channel under another name, through a hint.  An identifier that
+    no route would ever contain does not exclude anything. *)
+Definition not_excluded (q : params) (named : Z) (e : edge) : Prop :=
   if is_blinded (e_kind e) then ~ In (e_id e) (q_excluded_blinded q)
-  else Forall (fun i => ~ In i (q_excluded q)) (edge_ids e).
+  else ~ In named (q_excluded q) /\ ~ In (e_id e) (q_excluded q).
 
 (** the forwarding node at the end of leg [l] is paid at least what the policy of the next
     channel requires for the amount forwarded over it *)
@@ -183,7 +189,7 @@ Definition usable (e : edge) : Prop :=
 Definition usable_b (e : edge) : bool := e_usable e && e_chan_ok e && e_node_ok e.
 
 Definition leg_ok (q : params) (l : rleg) : Prop :=
-  usable (r_e l) /\ not_excluded q (r_e l) /\ kind_ok q (r_pos l) (e_kind (r_e l)) /\
+  usable (r_e l) /\ not_excluded q (r_id l) (r_e l) /\ kind_ok q (r_pos l) (e_kind (r_e l)) /\
   e_hmin (r_e l) <= r_amt l /\ fee_ok l.
 
 Definition same_edge (e1 e2 : edge) : bool :=
@@ -248,16 +254,16 @@ Definition kind_ok_b (q : params) (pos : nat) (k : kind) : bool :=
   | KHint => negb (Nat.eqb pos O)
   | KBlinded => true
   end.
-Definition not_excluded_b (q : params) (e : edge) : bool :=
+Definition not_excluded_b (q : params) (named : Z) (e : edge) : bool :=
   if is_blinded (e_kind e) then negb (mem_z (e_id e) (q_excluded_blinded q))
-  else forallb (fun i => negb (mem_z i (q_excluded q))) (edge_ids e).
+  else negb (mem_z named (q_excluded q)) && negb (mem_z (e_id e) (q_excluded q)).
 Definition fee_ok_b (l : rleg) : bool :=
   match r_next l with
   | Some (a, f) => match compute_fees a f with Some req => req <=? r_fee l | None => false end
   | None => true
   end.
 Definition leg_ok_b (q : params) (l : rleg) : bool :=
-  usable_b (r_e l) && not_excluded_b q (r_e l) && kind_ok_b q (r_pos l) (e_kind (r_e l))
+  usable_b (r_e l) && not_excluded_b q (r_id l) (r_e l) && kind_ok_b q (r_pos l) (e_kind (r_e l))
   && (e_hmin (r_e l) <=? r_amt l) && fee_ok_b l.
 Definition limit_ok_b (overpay : bool) (all : list (list rleg)) (lt : rleg * list rleg) : bool :=
   exempt_b overpay (snd lt) ||
@@ -316,7 +322,7 @@ Definition route_diagnose (g : graph) (q : params) (r : route) : Z :=
       else if negb (Z.of_nat (List.length r) <=? q_max_paths q) then 3
       else if negb (forallb2 (path_shape_ok_b q) r all) then 4
       else if negb (forallb (forallb (fun l => usable_b (r_e l))) all) then 5
-      else if negb (forallb (forallb (fun l => not_excluded_b q (r_e l))) all) then 6
+      else if negb (forallb (forallb (fun l => not_excluded_b q (r_id l) (r_e l))) all) then 6
       else if negb (forallb (forallb (fun l => kind_ok_b q (r_pos l) (e_kind (r_e l)))) all) then 7
       else if negb (forallb (forallb (fun l => e_hmin (r_e l) <=? r_amt l)) all) then 8
       else if negb (forallb (forallb fee_ok_b) all) then 9
